@@ -560,6 +560,21 @@ alloc_info(void)
 H4V_DECL_ND(int32);
 H4V_DECL_ND(int);
 H4V_DECL_ND(unsigned);
+H4V_DECL_ND(uint8);
+/* counterexample / native mode: up to 8 individually named bytes (the replay maps names back) */
+#define ND_BYTE(p, n, i, nm)                                                                         \
+    H4V_ND(uint8, nm##i);                                                                            \
+    if ((i) < (n))                                                                                   \
+    (p)[i] = nm##i
+#define ND_BYTES8(p, n, nm)                                                                          \
+    ND_BYTE(p, n, 0, nm);                                                                            \
+    ND_BYTE(p, n, 1, nm);                                                                            \
+    ND_BYTE(p, n, 2, nm);                                                                            \
+    ND_BYTE(p, n, 3, nm);                                                                            \
+    ND_BYTE(p, n, 4, nm);                                                                            \
+    ND_BYTE(p, n, 5, nm);                                                                            \
+    ND_BYTE(p, n, 6, nm);                                                                            \
+    ND_BYTE(p, n, 7, nm)
 H4V_DECL_ND(h4v_i64);
 
 static void
@@ -627,9 +642,8 @@ mk_info(void)
 #if defined(H4V_CEX) || defined(H4V_NATIVE)
     /* counterexample mode: only the first 8 buffer bytes are named inputs */
     H4V_ASSUME(st_state != RLE_MIX || (st_buf_length >= 0 && st_buf_length <= 8 && st_buf_pos <= 8 - st_buf_length));
-    H4V_ND_BUF(uint8, rb, 8, 8);
     memset(RF(info, buffer), 0, 128);
-    memcpy(RF(info, buffer), rb, 8);
+    ND_BYTES8(RF(info, buffer), 8, rb);
 #endif
     return info;
 }
@@ -641,7 +655,14 @@ h_crle_encode(void)
     compinfo_t *info = mk_info();
     H4V_ND(int32, length);
     H4V_ASSUME(length >= 0);
+#if defined(H4V_CEX) || defined(H4V_NATIVE)
+    H4V_ASSUME(length <= 8);
+    uint8 *in = malloc(8);
+    H4V_ASSUME(in != NULL);
+    ND_BYTES8(in, length, in);
+#else
     H4V_ND_BUF(uint8, in, length, 8);
+#endif
     int32 emit0 = g_emit;
     int32 r     = HCIcrle_encode(info, length, in);
     H4V_COVER(r == SUCCEED && RF(info, rle_state) == RLE_RUN, "encode ends in RUN");
@@ -674,7 +695,14 @@ h_crle_decode(void)
     H4V_ND(int32, disk_n);
     H4V_ND(int32, disk_pos);
     H4V_ASSUME(disk_n >= 0 && disk_pos >= 0 && disk_pos <= disk_n);
+#if defined(H4V_CEX) || defined(H4V_NATIVE)
+    H4V_ASSUME(disk_n <= 8);
+    uint8 *disk = malloc(8);
+    H4V_ASSUME(disk != NULL);
+    ND_BYTES8(disk, disk_n, dk);
+#else
     H4V_ND_BUF(uint8, disk, disk_n, 12);
+#endif
     g_disk     = disk;
     g_disk_cap = g_disk_n = disk_n;
     g_dp       = disk_pos;
@@ -748,7 +776,13 @@ h_crle_roundtrip(void)
     H4V_ND(int32, r1);
     H4V_ND(int32, r2);
     H4V_ASSUME(0 <= n && n <= RT_N && 0 <= w1 && w1 <= w2 && w2 <= n && 0 <= r1 && r1 <= r2 && r2 <= n);
+#if (defined(H4V_CEX) || defined(H4V_NATIVE)) && RT_N <= 8
+    uint8 *s = malloc(8);
+    H4V_ASSUME(s != NULL);
+    ND_BYTES8(s, RT_N, sb);
+#else
     H4V_ND_BUF(uint8, s, RT_N, RT_N);
+#endif
 #ifdef RT_TWO
     H4V_ND(int, la);
     H4V_ND(int, lb);
